@@ -37,7 +37,7 @@ def load_findings():
 
 
 class Ctx:
-    def __init__(self, pid, tier, seed, level):
+    def __init__(self, pid, tier, seed, level, keep_replay=False):
         self.pid = pid
         self.tier = tier
         self.seed = seed
@@ -50,7 +50,8 @@ class Ctx:
         kf = load_findings()
         self.open = {e["key"]: e for e in kf.get("open", []) if e.get("property") == pid}
         self.replay_root = os.path.join(VERIF, "evidence", "replay", pid)
-        shutil.rmtree(self.replay_root, ignore_errors=True)
+        if not keep_replay:
+            shutil.rmtree(self.replay_root, ignore_errors=True)
         self._vseen = set()
         self.max_reported = 80
 
@@ -160,7 +161,7 @@ def main(argv):
     except ImportError as ex:
         print("no check for %s: %s" % (pid, ex))
         return 2
-    ctx = Ctx(pid, a.tier, seed, getattr(mod, "LEVEL", "exploration"))
+    ctx = Ctx(pid, a.tier, seed, getattr(mod, "LEVEL", "exploration"), keep_replay=bool(a.replay))
     try:
         if a.replay:
             if not hasattr(mod, "replay"):
